@@ -364,7 +364,8 @@ def _run(R, tier, hs, S):
     sweeps_ok = 0
     for fl, used, ok in core.pmap(_sweep_work, sweep_tasks, chunksize=1):
         R.fail_many(fl)
-        used_names.append(used)
+        if ok:
+            used_names.append(used)
         sweeps_ok += ok
     n_total += len(sweep_tasks)
 
